@@ -41,7 +41,9 @@ META = {
         "the token objects of every two runs are also compared with the library's own == (names and keywords are interned "
         "objects), also after 40000 distinct names were tokenised in the process; every string over the 27-symbol alphabet up to seek_len "
         "(and over the 13 steering symbols up to sigma12_len-1) once more with settings.STRICT=True (nothing but end of input may be signalled in either mode), and once more with the parser's "
-        "read-only helpers tell(), poll() and poll(1,3) called between every two tokens (the sequence must equal the run without them, for every buffer size). A case is one string (distinct by construction within a family); non-trivial = the reference run "
+        "read-only helpers tell(), poll() and poll(1,3) called between every two tokens (the sequence must equal the run without them, for every buffer size); every string over the 13 steering symbols up to sigma12_len-2 with DEBUG logging enabled for the library's loggers; "
+        "call histories on one parser object: every sequence of up to 3 (thorough: 4) calls from {nexttoken, nextline, one step of revreadlines(), the underlying file moved by someone else} on 3 structured inputs, "
+        "then seek(k) for every k, with BUFSIZ in {1,2,3,7,4096}: the tokens that follow must be those of a fresh parser after seek(k). A case is one string (distinct by construction within a family); non-trivial = the reference run "
         "yields at least one token. states = strings (nodes of the string tree), transitions = (string, BUFSIZ) runs, "
         "traces = strings whose every run was compared with the single-buffer reference."
     ),
@@ -320,6 +322,81 @@ LONG_UNITS = [b"7", b"a", b"/N", b"(s", b"<4", b"%c", b"+", b"1.", b" ", b"\\"]
 LONG_LENGTHS = [4095, 4096, 4097, 4400, 9000]
 
 
+# ---- call histories on one parser object (added after seeded defect C14_15 was missed)
+HIST_INPUTS = [
+    b"12 /Na (s t) % c\n<AB> [ true ] 3.5 R",
+    b"a b\r\nc d\re f\n/G#41 (x\\\ny) <4 1>",
+    b"%%EOF\r\n1 0 obj\n<< /K 2 >>\nendobj\n",
+]
+HIST_OPS = ["T", "L", "R", "X"]  # nexttoken, nextline, one step of revreadlines(), the file moved behind the parser's back
+HIST_BUFS = [1, 2, 3, 7, 4096]
+
+
+def _hist_apply(p, fp, op):
+    try:
+        if op == "T":
+            p.nexttoken()
+        elif op == "L":
+            p.nextline()
+        elif op == "R":
+            next(p.revreadlines(), None)
+        else:
+            fp.seek(0, 2)
+            fp.read(1)
+    except PSEOF:
+        pass
+
+
+def _drain(p):
+    out = []
+    try:
+        while True:
+            pos, t = p.nexttoken()
+            out.append((pos, canon_tok(t)))
+            if len(out) > 200:
+                break
+    except PSEOF:
+        pass
+    return out
+
+
+def check_history(data: bytes, hist, st) -> None:
+    """after ANY history of calls on one parser object, seek(k) puts it into the state of a fresh parser after seek(k):
+    the tokens that follow are the same, for every buffer size"""
+    for k in range(0, len(data) + 1):
+        ref, prob = tokenize(data, 4096, seek=k) if k else tokenize(data, 4096)
+        if prob:
+            continue
+        for b in HIST_BUFS:
+            st.states += 1
+            st.transitions += len(hist) + 1
+            st.traces += 1
+            case = {"data": data, "history": list(hist), "seek": k, "bufsiz": b, "hist": True}
+            _MON["count"] = 0
+            _MON["budget"] = 400 * len(data) + 20000
+            try:
+                fp = io.BytesIO(data)
+                p = CountingParser(fp)
+                p.BUFSIZ = b
+                p.nfill = 0
+                p.budget = 64 * len(data) + 512
+                for op in hist:
+                    _hist_apply(p, fp, op)
+                p.seek(k)
+                got = _drain(p)
+            except (Livelock, Spin):
+                got = "livelock"
+            except Exception as e:  # noqa
+                got = f"{type(e).__name__}"
+            _MON["budget"] = 1 << 60
+            st.case(None, nontrivial=bool(ref), outcome=("hist", len(got) if isinstance(got, list) else got))
+            if got != ref:
+                st.violation("C14/history:seek-does-not-restore-fresh-state" if isinstance(got, list) else f"C14/history:{got}", case, ref, got,
+                             "tokens after history + seek(k) differ from a fresh parser after seek(k)")
+            if got == "livelock":
+                raise AbortShard()
+
+
 def long_tokens():
     """one very long token of each lexical class (longer than the default buffer and than CPython's
     4300-digit int limit), between two short tokens"""
@@ -342,6 +419,8 @@ def shards(tier):
     out += [("reuse", i) for i in range(len(SIGMA))]
     out += [("strict", i) for i in range(len(SIGMA))] + [("strict12", i) for i in range(len(SIGMA12))]
     out += [("poll", i) for i in range(len(SIGMA))]
+    out += [("hist", i, o) for i in range(len(HIST_INPUTS)) for o in HIST_OPS]
+    out += [("debuglog", i) for i in range(len(SIGMA12))]
     out += [("long",), ("names",)]
     return out
 
@@ -364,6 +443,38 @@ def run_shard(shard, tier, st):
 def _run_shard(shard, tier, st):
     b = BOUNDS[tier]
     fam = shard[0]
+    if fam == "hist":
+        data = HIST_INPUTS[shard[1]]
+        depth = 3 if tier == "quick" else 4
+        for n in range(0, depth):
+            for tail in itertools.product(HIST_OPS, repeat=n):
+                check_history(data, (shard[2],) + tail, st)
+        if shard[1:] == (0, "T"):
+            st.sample({"family": "hist", "input": data, "ops": HIST_OPS, "depth": depth, "bufsizes": HIST_BUFS})
+        return
+    if fam == "debuglog":
+        # configuration: DEBUG logging switched on for the library's loggers (added after seeded defect C14_14 was missed)
+        import logging
+
+        lg = logging.getLogger("pdfminer")
+        old_level, old_prop = lg.level, lg.propagate
+        h = logging.NullHandler()
+        lg.addHandler(h)
+        lg.setLevel(logging.DEBUG)
+        lg.propagate = False
+        disabled = logging.root.manager.disable
+        logging.disable(logging.NOTSET)  # the runner switches logging off globally; this family switches it on
+        try:
+            for data in _strings(SIGMA12, [SIGMA12[shard[1]]], b["sigma12_len"] - 2):
+                check_string(data, st, fam)
+            if shard[1] == 0:
+                st.sample({"family": "debuglog", "logger": "pdfminer", "level": "DEBUG", "last_string": data})
+        finally:
+            logging.disable(disabled)
+            lg.setLevel(old_level)
+            lg.propagate = old_prop
+            lg.removeHandler(h)
+        return
     if fam in ("strict", "strict12", "poll"):
         MODE["strict" if fam != "poll" else "poll"] = True
         try:
@@ -447,6 +558,9 @@ def replay(case):
         else:
             _run_shard(("names",), "quick", st)
         return [{"signature": v["signature"], "expected": v["expected"], "observed": v["observed"]} for v in st.violations]
+    if case.get("hist"):
+        check_history(data, tuple(case["history"]), st)
+        return [{"signature": v["signature"], "expected": repr(v["expected"]), "observed": repr(v["observed"])} for v in st.violations]
     sk = case.get("seek", 0)
     MODE["strict"] = bool(case.get("strict"))
     ref, prob = tokenize(data, 4096, seek=sk)
